@@ -10,6 +10,7 @@ from ..exact import Unsupported
 from ..storejudge import decode_store, STORE_OPS
 
 ID = 'C02'
+TECHNIQUE = 'runtime monitoring: universal well-formedness monitor (U1: codes in range, integer code types, n_int, limits, dtype string) on every object produced by random programs of public operations; saturation-side oracle on huge inputs; indexing monitor'
 TITLE = 'every produced object is well-formed'
 RULE = ('U1 well-formedness monitor on the receiver and the result of EVERY outermost public call made by random programs (construct, write, '
         'resize, like, + - * / // % under every sizing policy and both methods, constants, unary, shifts in all modes, bitwise, indexing, '
